@@ -64,6 +64,9 @@ structure TxnM where
   secMinCommits : List Nat := []                     -- min_commit_ts of async locks reported by CheckSecondaryLocks / by the primary's status
   secOutcomes : List Nat := []                       -- commit ts reported by CheckSecondaryLocks when a lock was missing (0 = rolled back)
   relaxLocks : Bool := false                         -- aggressive locking was used: lock-only mutations are not predicted (rule 9)
+  statusTTLs : List (String × Nat) := []             -- resolver ↦ the ttl its latest answered CheckTxnStatus on the primary reported
+  plockedKeys : List Bytes := []                     -- keys of pessimistic lock requests that were (or may have been) executed without a key error
+  beats : Nat := 0                                   -- heartbeats executed for this transaction
   deriving Repr, Inhabited
 
 structure MState where
@@ -95,13 +98,16 @@ inductive Ev
   | commit (client : String) (fate : Fate) (startTS commitTS : Nat) (keys : List Bytes) (ok : Bool) (definiteErr : Bool)
   | rollback (client : String) (fate : Fate) (startTS : Nat) (keys : List Bytes)
   | status (client : String) (fate : Fate) (primary : Bytes) (lockTS callerTS currentTS : Nat) (rollbackIfNotExist : Bool)
-      (answered : Bool) (ttl commitTS : Nat) (isErr : Bool)
+      (answered : Bool) (ttl commitTS : Nat) (isErr : Bool) (action : Nat)
   | resolve (client : String) (fate : Fate) (startTS commitTS : Nat) (infos : List (Nat × Nat))
   | heartbeat (client : String) (fate : Fate) (primary : Bytes) (startTS advise : Nat)
   | lockSeen (client : String) (lockTS ttl : Nat)            -- a KeyIsLocked error delivered to `client`
   | secAnswer (client : String) (startTS : Nat) (minCommits : List Nat) (missing : Bool) (commitTS : Nat)
       -- answer of CheckSecondaryLocks, or (missing = false) the async primary's min_commit_ts from CheckTxnStatus
   | relaxLocks (client : String) (startTS : Nat)            -- aggressive locking call seen for this transaction
+  | secCheck (client : String) (startTS : Nat)              -- a CheckSecondaryLocks request (async-commit recovery) was sent by `client`
+  | plock (client : String) (fate : Fate) (startTS : Nat) (primary : Bytes) (keys : List Bytes) (ok : Bool)
+      -- a PessimisticLock request; ok = answered without a key error
   deriving Repr
 
 def isGC (client : String) : Bool := client.startsWith "gc"
@@ -157,7 +163,7 @@ def checksOf (m : MState) : Ev → List (Bool × String)
   | .rollback client _fate startTS _keys =>
     let t := m.get startTS client
     [ (!(t.client == client && t.commitPointMaybe), "rule3 rollback sent after a primary commit that may have taken effect") ]
-  | .status client _fate _primary lockTS _callerTS currentTS rollbackIfNotExist _answered _ttl _commitTS _isErr =>
+  | .status client _fate _primary lockTS _callerTS currentTS rollbackIfNotExist _answered _ttl _commitTS _isErr _action =>
     let t := m.get lockTS client
     [ (if currentTS == maxU64 then isGC client || t.ttlSeen == some 0 || t.ttlSeen.isNone else currentTS ≤ m.maxTSO,
         "rule5 current_ts beyond what the resolver's oracle has seen, or max for a live lock outside GC"),
@@ -180,6 +186,20 @@ def checksOf (m : MState) : Ev → List (Bool × String)
     [ (t.primary.isNone || t.primary == some primary, "rule6 heartbeat does not name the primary"),
       (advise ≥ t.lastAdvise, "rule6 advise_ttl decreased"),
       (!t.ended, s!"rule6 heartbeat after the transaction ended (#{t.beatsAfterEnd + 1})") ]
+  | .secCheck client startTS =>
+    -- rule 5: async-commit recovery starts only after the ttl that THIS resolver's status check on the primary was shown
+    -- has elapsed on a clock it can have seen (GC's batch resolution works below the safe point and is exempt)
+    let t := m.get startTS client
+    [ (isGC client ||
+        (match t.statusTTLs.find? (·.1 == client) with
+         | some (_, ttl) => ttl == 0 || physical startTS + ttl ≤ physical m.maxTSO
+         | none => true),
+        "rule5 async-commit recovery (CheckSecondaryLocks) before the ttl reported by the status check has elapsed") ]
+  | .plock client _fate startTS primary keys _ok =>
+    -- rule 8: the primary a pessimistic lock request names is locked by this request or was locked by an earlier one
+    let t := m.get startTS client
+    [ (keys.contains primary || t.plockedKeys.contains primary,
+        "rule8 pessimistic lock request names a primary that is neither locked nor being locked") ]
   | _ => []
 
 /-- the state after an accepted event -/
@@ -231,13 +251,26 @@ def applyEv (m : MState) : Ev → MState
       primaryCommitted := if hasPrimary && executedOk then some commitTS else t.primaryCommitted
       committedKeys := if executedOk then t.committedKeys ++ keys else t.committedKeys }
   | .rollback _ _ _ _ => m
-  | .status client _fate _primary lockTS _callerTS _currentTS _rb answered ttl commitTS isErr =>
+  | .status client _fate _primary lockTS _callerTS _currentTS _rb answered ttl commitTS isErr action =>
     let t := m.get lockTS client
-    if answered && !isErr then m.upd { t with statusAnswers := (commitTS, ttl == 0 && commitTS == 0) :: t.statusAnswers } else m
+    if answered && !isErr then
+      -- "rolled back" is what the actions NoAction / TTLExpireRollback / LockNotExistRollback (codes 0, 1, 2) say with ttl 0
+      -- and no commit ts; MinCommitTSPushed carries a ttl; TTLExpirePessimisticRollback (4) and LockNotExistDoNothing (5) only
+      -- say that the pessimistic lock asked about is gone / that nothing is at THIS key — nothing about the transaction
+      m.upd { t with statusAnswers := (commitTS, ttl == 0 && commitTS == 0 && action ≤ 2) :: t.statusAnswers,
+                     statusTTLs := (client, ttl) :: t.statusTTLs.filter (·.1 != client) }
+    else m
   | .resolve _ _ _ _ _ => m
   | .heartbeat client _fate _primary startTS advise =>
     let t := m.get startTS client
-    m.upd { t with lastAdvise := advise, beatsAfterEnd := if t.ended then t.beatsAfterEnd + 1 else t.beatsAfterEnd }
+    m.upd { t with lastAdvise := advise, beatsAfterEnd := if t.ended then t.beatsAfterEnd + 1 else t.beatsAfterEnd,
+                   beats := if _fate == .answered || _fate == .lostResp then t.beats + 1 else t.beats }
+  | .secCheck _ _ => m
+  | .plock client fate startTS _primary keys ok =>
+    let t := m.get startTS client
+    if (fate == .answered && ok) || fate == .lostResp || fate == .unknownNotExec then
+      m.upd { t with plockedKeys := t.plockedKeys ++ keys.filter (fun k => !t.plockedKeys.contains k) }
+    else m
 
 /-- the monitor: an event is accepted iff all its checks hold; the first failing rule is reported -/
 def Monitor.step (m : MState) (ev : Ev) : Except String MState :=
@@ -280,5 +313,9 @@ def outcomeOf (s : Store) (T : Nat) : Outcome :=
 /-- value visible at `ts` on key `k` (committed data only) -/
 def visible (s : Store) (k : Bytes) (ts : Nat) : Option Bytes :=
   (firstVisible (getEntry s.kv k).writes ts).map (·.value)
+
+/-- C05: the pairs a snapshot scan of [lo, hi) at `ts` shows, in ascending key order (committed data only) -/
+def snapRange (s : Store) (lo hi : Bytes) (ts : Nat) : List (Bytes × Bytes) :=
+  s.kv.filterMap fun p => if inRange lo hi p.1 then (visible s p.1 ts).map fun v => (p.1, v) else none
 
 end CGV.Perc
